@@ -242,7 +242,45 @@ func (r *c02run[V]) operand(rng *core.Rng) setOperand[V] {
 	}
 }
 
+// backdoor: a set is changed through the Flexible aspect only.  If the object
+// also answers to the mutating aspects of lists (reachable by a type assertion),
+// using them is a history like any other; none of them has a meaning under which
+// "strictly ascending, each rank class once" survives, so the model stays as it is.
+func (r *c02run[V]) backdoor(rng *core.Rng) {
+	var what string
+	r.Guard("backdoor", func() {
+		switch x := any(r.real).(type) {
+		case col.Sortable[V]:
+			if len(r.model) > 1 {
+				what = "Sortable.ReverseValues"
+				x.ReverseValues()
+			}
+		case col.Updatable[V]:
+			if len(r.model) > 1 {
+				what = "Updatable.SetValue"
+				x.SetValue(1, r.model[len(r.model)-1])
+			}
+		case col.Expandable[V]:
+			if len(r.model) > 0 {
+				what = "Expandable.AppendValue"
+				x.AppendValue(r.model[0])
+			}
+		}
+	})
+	if what != "" && !r.Failed {
+		r.Log("(type assertion) %s", what)
+		r.observe("backdoor." + what)
+	}
+	r.C.Cover("set.backdoor-probed")
+}
+
 func (r *c02run[V]) step(rng *core.Rng) {
+	if rng.Chance(1, 50) {
+		r.backdoor(rng)
+		if r.Failed {
+			return
+		}
+	}
 	n := len(r.model)
 	ops := []string{"AddValue", "AddValues", "RemoveValue", "RemoveValues", "RemoveAll", "ContainsAny", "ContainsAll", "GetValue", "GetValues"}
 	op := ops[rng.Weighted([]int{10, 4, 7, 3, 1, 2, 2, 2, 3})]
